@@ -363,6 +363,17 @@ impl std::cmp::PartialEq for BitPage {
 
 impl std::cmp::Eq for BitPage {}
 
+#[cfg(googlefonts_fontations_verif)]
+impl BitPage {
+    /// Verification hook: (cached length, actual population count).
+    pub(crate) fn verif_lengths(&self) -> (u32, u32) {
+        (
+            self.length,
+            self.storage.iter().copied().map(u64::count_ones).sum(),
+        )
+    }
+}
+
 #[cfg(test)]
 mod test {
     use std::collections::HashSet;
